@@ -57,7 +57,33 @@ def send(obj):
     PROTO_OUT.write(struct.pack("<Q", len(blob)) + blob)
 
 
+def _neutralise_clocks():
+    """pytools.ProcessLogger (used all over loopy) reads the wall clock and
+    formats elapsed times into strings of varying length: enough to shift later
+    allocations, i.e. to make object addresses depend on timing.  The simulated
+    interpreters must not read a real clock: replace it by a silent dummy BEFORE
+    loopy is imported."""
+    import pytools
+
+    class _SilentProcessLogger:
+        def __init__(self, *args, **kwargs):
+            pass
+
+        def done(self, *args, **kwargs):
+            pass
+
+        def __enter__(self):
+            pass
+
+        def __exit__(self, *args):
+            pass
+
+    pytools.ProcessLogger = _SilentProcessLogger
+    pytools.DebugProcessLogger = _SilentProcessLogger
+
+
 def main():
+    _neutralise_clocks()
     import pytato  # noqa: F401
     root = os.environ.get("VERIF_PYTATO_ROOT", "/repo")
     assert os.path.realpath(pytato.__file__).startswith(
